@@ -43,6 +43,47 @@ BUILT = {
    "null_move() judged on every state (null is also an action, up to 2 per path): refused iff in check; otherwise equals the passed position built from scratch.",
    "reference in-check test; from-scratch construction",
    "explicit-state exploration of the implementation with null moves as actions"),
+
+ "C07": ("model_checking", "E3 sweep + E1 posgraph", "5.C07",
+   "Complete enumeration of bounded text spaces (field product, 1-edit balls of seed FENs, all short strings) and of all builder states with up to 2 (thorough 3) men, plus crowded-board families and the standard universes: no panic, accepted => necessary conditions, reference-valid => accepted, and every accepted board is exercised (movegen, status, rendering, make_move) in a debug-assertion build where unchecked pushes and indexing are loud.",
+   "reference validity predicate; debug-assertion build turns out-of-bounds access into a panic/abort (a release build would corrupt silently)",
+   "exhaustive enumeration of bounded input spaces with a sandwich oracle; accepted inputs driven through the implementation"),
+ "C10": ("model_checking", "E2 protocol", "5.C10",
+   "Every operation sequence (legal and illegal moves incl. all 20480 values near the root, offers, accepts, declarations, resignations) up to depth 3-7 from 35 roots incl. finished ones, on the real Game in lock step with a reference automaton; all observers compared after every operation; post-result operations must be refused and change nothing.",
+   "reference game automaton; return values the statement leaves open (offer/resign in an open game, accept with pending offer) are only checked for consistency",
+   "exhaustive enumeration of API call sequences (history states) against a reference automaton"),
+ "C11": ("model_checking", "E2 protocol", "5.C11",
+   "All sequences over small repetition menus to depth 9-11 and deviation-bounded long histories (0-2 events spliced into a 105-ply self-avoiding filler, every ply x every event kind) with can_declare_draw compared after every ply and declare_draw executed around the 99/100/101 boundary.",
+   "FIDE 9.2/9.3 on the reference game; tolerant zone T3 for the two readings of 'en-passant possibility'",
+   "exhaustive menu sequences + deviation-bounded exploration of long histories against a reference claim rule"),
+ "C12": ("model_checking", "E1 posgraph positions + E3 text sweep", "5.C12",
+   "For ~13k positions every admissible spelling of every legal move must parse to it; on ~60 positions every grammar-complete text (~180k each) is judged by a reference interpreter; 1-edit balls of all spellings and all short strings must be panic-free and only ever return legal moves.",
+   "independent SAN writer/interpreter; tolerant zone T4 for unvalidated markers and castling spelled as a king move",
+   "exhaustive enumeration of spellings and grammar-complete texts per position against a reference interpreter"),
+ "C13": ("exploration", "E3 sweep", "5.C13",
+   "All 20480 moves and 64 squares round-trip; every string up to length 5 (thorough 6) over a 30-symbol alphabet with multi-byte characters is parsed as move and as square: no panic, and a success renders to a prefix of the input.",
+   "the alphabet and length bound; longer strings only add an ignored tail or a length-5 promotion letter, both inside the bound",
+   "complete enumeration of a finite input domain"),
+ "C14": ("model_checking", "E2 protocol", "5.C14",
+   "Per position every program [<=2 removals][<=3 mask phases][flush] within stated bounds is executed on the real MoveGen with len() and size_hint() read before every next(); judged against a reference remaining-move set.",
+   "reference legal-move set; tolerant zone T5 (moves sharing source and destination with a removed move); remove_move's return value is not judged",
+   "exhaustive enumeration of iterator call programs against a reference model"),
+ "C15": ("exploration", "E3 sweep (two builds)", "5.C15",
+   "64 squares x every subset of the ray squares x a noise catalogue, rook and bishop, against ray walking; in the default build and (child process) in the +bmi2 build where the pext/pdep variants are judged too.",
+   "noise on non-ray squares is a catalogue, not all subsets; needs a BMI2-capable CPU for the second configuration (otherwise reported as a cap)",
+   "complete enumeration of ray occupancies in both build configurations"),
+ "C16": ("exploration", "E3 sweep", "5.C16",
+   "Complete enumeration of all geometry tables and step helpers (4096 pairs, 64 squares, 2 colours, all pawn blocker combinations of the relevant squares) against coordinate-arithmetic definitions.",
+   "pawn noise on irrelevant squares is a catalogue of 5 patterns",
+   "complete enumeration of finite domains"),
+ "C19": ("model_checking", "E2 protocol", "5.C19",
+   "Every add/replace_if sequence up to depth 4 (thorough 5) over 60 operations per size, sizes 1-8(16), two value types, replayed on the real table and a slot-array model with all lookups and predicate arguments compared; construction for 1000+ sizes.",
+   "6-hash alphabet per size chosen to collide and not collide; out-of-table access is loud only because of the debug-assertion build",
+   "exhaustive enumeration of operation sequences against a reference model"),
+ "C20": ("exploration", "E3 sweep", "5.C20",
+   "Set-algebra laws on ~4700 structured values (all <=2-bit boards, complements, rank/file unions, diagonals): unary laws on all, binary laws in all 19 operator forms on all pairs.",
+   "laws are checked on the structured set, not all 2^64 values; operators are bitwise",
+   "complete enumeration of a structured finite value set"),
 }
 PENDING = {}
 
